@@ -207,7 +207,13 @@ async fn send_impl<T, Codec>(
                             }
                             Err(err) => {
                                 let _ = remote_send_err_tx.send(Some(RemoteSendError::Send(err.kind.clone())));
-                                let _ = closed_tx.send(Some(ClosedReason::Failed));
+                                // A send failing because the remote receiver is gone means that
+                                // the receiver has been dropped, not that the connection failed.
+                                let reason = match &err.kind {
+                                    base::SendErrorKind::Send(chmux::SendError::Closed { .. }) => ClosedReason::Dropped,
+                                    _ => ClosedReason::Failed,
+                                };
+                                let _ = closed_tx.send(Some(reason));
                                 if let Ok(item) = err.item
                                     && let Err(Err(err)) = result_tx.send(Err(base::SendError {
                                         kind: err.kind,
